@@ -31,7 +31,7 @@ func checkC15(r *Run) {
 	r.check(len(hcallers) == 1 && hcallers[0] == "p9.connState.handle", "r1", "handlers are dispatched only behind the panic barrier", token.NoPos, "only connState.handle calls handler.handle", "handler.handle is invoked from "+strings.Join(hcallers, ", ")+": a backend panic there is not recovered")
 	if hr := r.L.Func("p9", "connState.handleRequest"); hr != nil {
 		for _, s := range m.callsIn(hr, "p9.connState.handle") {
-			r.check(s.St.Must["defer:sync.WaitGroup.Done"], "r1", "handleRequest: Done is deferred before the handler runs", s.Call.Pos(), "defer pendingWg.Done()", "pendingWg.Done is not deferred before cs.handle: teardown could wait for ever after a panic")
+			r.check(deferredAt(s.St, "sync.WaitGroup.Done"), "r1", "handleRequest: Done is deferred before the handler runs", s.Call.Pos(), "defer pendingWg.Done()", "pendingWg.Done is not deferred before cs.handle: teardown could wait for ever after a panic")
 		}
 	}
 
